@@ -8,8 +8,9 @@ rm -rf _build
 cmake -G Ninja -B _build -S . -DCMAKE_BUILD_TYPE=RelWithDebInfo >/dev/null 2>&1
 cmake --build _build -j16 -- -k 0 >/dev/null 2>&1
 echo "== tests with change:"; ctest --test-dir _build -j8 --timeout 900 2>&1 | grep -E "tests passed|tests failed|Failed|\*\*\*" | head -8
-echo "== demo with change:"; (cd seed && timeout 300 sh run.sh $WT >/var/tmp/seed_demo_with.log 2>&1; echo "rc=$?"); tail -3 /var/tmp/seed_demo_with.log
+echo "== demo with change:"; (cd seed && timeout 300 sh run.sh $WT >/var/tmp/seed_demo_with_$$.log 2>&1; echo "rc=$?"); tail -3 /var/tmp/seed_demo_with_$$.log
 git apply -R /var/tmp/seed_$$.diff
 cmake --build _build -j16 -- -k 0 >/dev/null 2>&1
-echo "== demo without change:"; (cd seed && timeout 300 sh run.sh $WT >/var/tmp/seed_demo_without.log 2>&1; echo "rc=$?"); tail -3 /var/tmp/seed_demo_without.log
+echo "== demo without change:"; (cd seed && timeout 300 sh run.sh $WT >/var/tmp/seed_demo_without_$$.log 2>&1; echo "rc=$?"); tail -3 /var/tmp/seed_demo_without_$$.log
 git apply /var/tmp/seed_$$.diff; rm -f /var/tmp/seed_$$.diff
+rm -f /var/tmp/seed_demo_with_$$.log /var/tmp/seed_demo_without_$$.log
